@@ -303,16 +303,20 @@ func g04Render(v g04Vec, o g04Opts) string {
 	case "url":
 		junk := g04Junk[o.junk%len(g04Junk)]
 		if q == "" {
-			// an unquoted value ends at white space or '>' and its leading
-			// white space / NUL is skipped by the tokenizer: keep the junk
-			// that survives there, and separate scheme bytes with NUL only
-			junk = strings.Map(func(r rune) rune {
+			// an unquoted value ends at white space or '>'; white space / NUL in
+			// front of it is skipped by the tokenizer and may stay, later white
+			// space is dropped; scheme bytes are separated with NUL only
+			lead := 0
+			for lead < len(junk) && strings.IndexByte(" \t\n\r\f\v\x00", junk[lead]) >= 0 {
+				lead++
+			}
+			junk = junk[:lead] + strings.Map(func(r rune) rune {
 				switch r {
 				case ' ', '\t', '\n', '\r', '\f', '\v', '>':
 					return -1
 				}
 				return r
-			}, junk)
+			}, junk[lead:])
 		}
 		if o.stretch == 3 {
 			junk = stretchTo(junk, o.stretchLen)
